@@ -71,6 +71,16 @@ func (s *Sim) DrawAmount(t *rapid.T, x int) lnwire.MilliSatoshi {
 		return lnwire.MilliSatoshi(v)
 	case kind == 6:
 		return lnwire.MilliSatoshi(rapid.Int64Range(1, capMsat).Draw(t, "anyAmt"))
+	case kind == 7:
+		// between the two parties' dust limits: once settled to a side
+		// that owns nothing else, its balance is an output on one
+		// party's commitment and trimmed on the other's.
+		lo, hi := int64(s.P.Dust[0]), int64(s.P.Dust[1])
+		if lo > hi {
+			lo, hi = hi, lo
+		}
+		sat := rapid.Int64Range(lo, hi).Draw(t, "betweenDust")
+		return lnwire.MilliSatoshi(sat*1000 + int64(rapid.IntRange(0, 999).Draw(t, "bdMsat")))
 	default:
 		hi := capMsat / 20
 		if hi < 10_000_000 {
